@@ -750,12 +750,18 @@ func (c *LinCtx) Intrinsic(ls []Lin, nn nonNegProver) []Lin {
 				}
 			}
 		}
+		lenMax := int64(1) << 50
+		if c.intW == 32 {
+			lenMax = int64(1)<<31 - 1
+		}
 		switch k.kind {
 		case akLen:
 			emit(al.scale(-1))
+			emit(al.addConst(-lenMax))
 			return
 		case akCap:
 			emit(al.scale(-1))
+			emit(al.addConst(-lenMax))
 			emit(atomLin(c.atom(k.v, akLen)).add(al, -1)) // len ≤ cap
 			return
 		case akShlQ:
